@@ -34,13 +34,13 @@ def flatten_types(types):
     return out
 
 
-def build_engine(outdir: pathlib.Path, types) -> typing.Tuple[ec.CEngine, spec.Binder]:
+def build_engine(outdir: pathlib.Path, types, defines: typing.Sequence[str] = ()) -> typing.Tuple[ec.CEngine, spec.Binder]:
     headers = sorted(p.relative_to(outdir).as_posix() for p in outdir.rglob("*.h") if "nunavut/support" not in p.as_posix())
     tu = "#include <stdint.h>\n#include <stddef.h>\nvoid __vk_assert(int);\n#define NUNAVUT_ASSERT(x) __vk_assert((int)(x))\n" + "".join(f'#include "{h}"\n' for h in headers)
     with tempfile.TemporaryDirectory() as d:
         tup = pathlib.Path(d) / "tu.c"
         tup.write_text(tu)
-        p = subprocess.run(["clang", "-std=c11", "-fsyntax-only", "-Wall", "-Wextra", "-Werror", "-Wno-unused-function", "-I", str(outdir), "-Xclang", "-ast-dump=json", str(tup)],
+        p = subprocess.run(["clang", "-std=c11", "-fsyntax-only", "-Wall", "-Wextra", "-Werror", "-Wno-unused-function", *defines, "-I", str(outdir), "-Xclang", "-ast-dump=json", str(tup)],
                            capture_output=True, text=True)
         if p.returncode != 0:
             raise ec.CBindingError("clang rejected the generated headers:\n" + p.stderr[:2000])
@@ -98,10 +98,10 @@ def _all_locations(binder, t, shape):
     def flocs(dt, path):
         if isinstance(dt, pydsdl.VariableLengthArrayType):
             p = path + ("count",)
-            yield (p, "count", dt.capacity, dt)
+            yield (p, "count", spec.vcap(dt), dt)
             k = shape.get(p)
             if isinstance(k, int) and isinstance(dt.element_type, pydsdl.CompositeType):
-                for i in range(min(k, dt.capacity)):
+                for i in range(min(k, spec.vcap(dt))):
                     yield from locs(dt.element_type, path + ("elements", str(i)))
         elif isinstance(dt, pydsdl.FixedLengthArrayType) and isinstance(dt.element_type, pydsdl.CompositeType):
             for i in range(dt.capacity):
@@ -120,16 +120,35 @@ def sub_shape(shape: spec.Shape, prefix: typing.Tuple[str, ...]) -> spec.Shape:
     return out
 
 
-def bool_leaf_requirements(ws: spec.WireSpec, binder, t, o: spec.Obj):
-    """C `bool` objects hold 0 or 1 (anything else is a trap representation): stated as a precondition"""
+def bool_leaf_requirements(ws: spec.WireSpec, binder, t, o: spec.Obj, shape=None):
+    """C `bool` objects hold 0 or 1 (anything else is a trap representation): stated as a precondition for every bool
+    leaf the serializer reads under `shape` (the selected union option, the first `count` elements of an array)"""
+    shape = shape if shape is not None else {}
     reqs = []
     inner = t.inner_type if isinstance(t, pydsdl.DelimitedType) else t
-    for f, mpath, mct in binder.members(t):
-        if isinstance(f.data_type, pydsdl.BooleanType):
-            v = ws.load(o.sub(*mpath), mct)
-            reqs.append(Or(Eq(v.t, bvlit(0, v.ct.width)), Eq(v.t, bvlit(1, v.ct.width))))
-        elif isinstance(f.data_type, pydsdl.CompositeType) and not isinstance(inner, pydsdl.UnionType):
-            reqs += bool_leaf_requirements(ws, binder, f.data_type, o.sub(*mpath))
+    members = binder.members(t)
+    if isinstance(inner, pydsdl.UnionType):
+        k = shape.get(o.path + ("_tag_",))
+        if not isinstance(k, int) or k >= len(members):
+            return []  # invalid or unconstrained tag: no option is read
+        members = [members[k]]
+
+    def field(dt, fo, mct):
+        if isinstance(dt, pydsdl.BooleanType):
+            v = ws.load(fo, mct)
+            return [Or(Eq(v.t, bvlit(0, v.ct.width)), Eq(v.t, bvlit(1, v.ct.width)))]
+        if isinstance(dt, pydsdl.CompositeType):
+            return bool_leaf_requirements(ws, binder, dt, fo, shape)
+        if isinstance(dt, pydsdl.FixedLengthArrayType) and isinstance(dt.element_type, pydsdl.CompositeType):
+            return [r for i in range(dt.capacity) for r in bool_leaf_requirements(ws, binder, dt.element_type, fo.sub(str(i)), shape)]
+        if isinstance(dt, pydsdl.VariableLengthArrayType) and isinstance(dt.element_type, pydsdl.CompositeType):
+            k = shape.get(fo.path + ("count",))
+            if isinstance(k, int):
+                return [r for i in range(min(k, spec.vcap(dt))) for r in bool_leaf_requirements(ws, binder, dt.element_type, fo.sub("elements", str(i)), shape)]
+        return []
+
+    for f, mpath, mct in members:
+        reqs += field(f.data_type, o.sub(*mpath), mct)
     return reqs
 
 
@@ -160,7 +179,8 @@ def serialize_contract(binder: spec.Binder, t, shape: typing.Optional[spec.Shape
         cap = cap_of(cx)
         ws = spec.WireSpec(cx.ex, binder, cx.old)
         o = spec.Obj(cx.args["obj"].region, cx.args["obj"].path)
-        return [app("<=", app("+", buf.off, cap), cx.length("buffer")), app("<", app("*", "8", cap), str(2 ** 60))] + bool_leaf_requirements(ws, binder, t, o)
+        doc = [app(">=", app("*", "8", cap), str(max_bits))] if _STATE.get("override") else []  # the option removes the size check (documented): caller's duty
+        return [app("<=", app("+", buf.off, cap), cx.length("buffer")), app("<", app("*", "8", cap), str(2 ** 60))] + doc + bool_leaf_requirements(ws, binder, t, o, cx.ex.shape)
 
     def ensures(cx):
         if null_param:
@@ -385,8 +405,22 @@ def collect(run, options: dict, label: str, kinds: typing.Tuple[str, ...]):
     deserializers ('des') of every corpus type (all shapes / null-argument variants) in parallel"""
     work = pathlib.Path(tempfile.mkdtemp(prefix="vk_pp_"))
     try:
+        options = dict(options)
+        override = options.pop("__override__", False)
         types = flatten_types(render_corpus(work, options))
-        eng, binder = build_engine(work, types)
+        defines = []
+        spec.CAP_OVERRIDE.clear()
+        if override:
+            # user-reduced capacities: every variable-length array field of non-boolean elements gets capacity - 1 (>= 1)
+            for tt in types:
+                for f in tt.fields_except_padding:
+                    dt = f.data_type
+                    if isinstance(dt, pydsdl.VariableLengthArrayType) and not isinstance(dt.element_type, pydsdl.BooleanType) and dt.capacity > 1:
+                        spec.CAP_OVERRIDE[id(dt)] = dt.capacity - 1
+                        defines.append(f"-D{spec.c_type_name(tt)}_{f.name}_ARRAY_CAPACITY_={dt.capacity - 1}U")
+            run.notes.setdefault("capacity_overrides", {})[label] = defines
+        _STATE["override"] = bool(override)
+        eng, binder = build_engine(work, types, defines)
     finally:
         _STATE["workdir"] = work
     by = {spec.c_type_name(t): t for t in types}
